@@ -1,7 +1,7 @@
 """C04 - IPC server callback order accept, created, msg*, closed, destroyed; no use-after-free."""
 from engine.qb import (AnalysisBroken, abstract_run, estr, unwrap, cval, walk, last_field, fields_of, callee_of, cond_cut,
                        mentions_var, atoms_of, root_var, TOP)
-from rules.common import field_is, has_call, derives, dec_and_test_atom, refcount_op, value_sources
+from rules.common import slot_call, field_is, has_call, derives, dec_and_test_atom, refcount_op, value_sources
 
 UNITS = ['lib/ipcs.c', 'lib/ipc_setup.c', 'lib/ipc_shm.c', 'lib/ipc_socket.c']
 DECIDES = ('Decides that each service callback has one call site guarded by the right connection state (finite evaluation of '
@@ -20,8 +20,9 @@ RULES = {
     'R8': 'qb_ipcs_destroy walks the connections by references (first_get/next_get), takes the next one before disconnecting the current one and drops its reference afterwards',
     'R9': 'a connection whose transport was taken down is not handed to the transport again: every send, sendv, fc_set, q_len_get and dispatch_mod reachable from a public function of ipcs.c is behind a test that the connection is ESTABLISHED or ACTIVE (exemptions: the teardown itself and the poll callback, with reasons)',
     'R10': 'connection_destroyed is called under a guard reference, so that a reference taken and dropped inside it does not destroy the connection a second time',
+    'R11': 'what can fault comes last under the SIGBUS guard: in the transport disconnect that sets a jump target for SIGBUS, for every connection state, no deregistration or close of the connection\'s descriptor follows a ring close in the same call (a ring file the client truncated makes the close jump to the end: the descriptor would stay in the main loop, dispatching to a connection that is then destroyed)',
 }
-FLOORS = {'R1': 24, 'R2': 4, 'R3': 7, 'R4': 8, 'R5': 2, 'R6': 5, 'R7': 6, 'R8': 3, 'R9': 6, 'R10': 1}
+FLOORS = {'R11': 4, 'R1': 24, 'R2': 4, 'R3': 7, 'R4': 8, 'R5': 2, 'R6': 5, 'R7': 6, 'R8': 3, 'R9': 6, 'R10': 1}
 
 CB = ('connection_accept', 'connection_created', 'msg_process', 'connection_closed', 'connection_destroyed')
 SLOT = 'qb_ipcs_service_handlers::%s'
@@ -40,6 +41,7 @@ def run(ctx):
     r8(ctx)
     r9(ctx, st)
     r10(ctx)
+    r11(ctx, st)
 
 
 def r1(ctx, st):
@@ -729,3 +731,36 @@ def r6(ctx):
     bad = [(g, ev) for (g, ev) in callers if g.name not in owners]
     ctx.check('R6', 'service-unref-owners', bool(callers) and not bad, bad[0][1] if bad else None,
               'qb_ipcs_unref is called only by the owners of a service reference %s' % sorted(owners), 'qb_ipcs_unref is also called from %s' % sorted({g.name for (g, _e) in bad}))
+
+
+def r11(ctx, st):
+    prog = ctx.prog
+    guarded = [f for f in prog.all_fns(files={'lib/ipc_shm.c'})
+               if any(b.cond is not None and has_call(b.cond, '_setjmp', 'setjmp', '__sigsetjmp') for b in f.blocks.values())]
+    guarded = [f for f in guarded if f.params and 'qb_ipcs_connection' in (f.params[0].get('ty') or '')]
+    if not guarded:
+        raise AnalysisBroken('R11: no server-side function of lib/ipc_shm.c sets a jump target for SIGBUS')
+    for f in guarded:
+        cv = f.params[0]['n']
+        sv = '%s->state' % cv
+
+        def faults(ev):
+            return ev.kind == 'CALL' and ev.callee in ('qb_rb_close', 'qb_rb_force_close')
+
+        def mustdo(ev):
+            return ev.kind == 'CALL' and (slot_call(ev, 'dispatch_del') or ev.callee in ('qb_ipcc_us_sock_close', 'close'))
+        if not any(faults(ev) for ev in f.events('CALL')) or not any(mustdo(ev) for ev in f.events('CALL')):
+            raise AnalysisBroken('R11: %s: ring closes / descriptor teardown not found' % f.name)
+
+        def eff(ev, env):
+            if faults(ev):
+                return {'#ring': 1}
+            return None
+        for sname, sval in sorted(st.items(), key=lambda kv: kv[1]):
+            # the jump target test: not taken on the way in (0 = the direct return of setjmp)
+            visits, _t = abstract_run(f, {sv: sval, cv: 1, '#ring': 0}, tracked={sv, cv, '#ring'}, effect=eff)
+            late = [ev for (ev, env) in visits if mustdo(ev) and env.get('#ring') == 1]
+            ctx.check('R11', '%s:%s:descriptor-before-rings' % (f.name, sname.replace('QB_IPCS_CONNECTION_', '')), not late, late[0] if late else f,
+                      'state %s: the descriptor is taken out of the main loop before any ring is closed (or only one of the two happens)' % sname,
+                      'state %s: %s runs after a ring close in the same call: if the client truncated the ring file the close jumps to the end, the descriptor stays registered and the main loop dispatches to the destroyed connection'
+                      % (sname, late[0].callee if late else ''))
